@@ -116,6 +116,16 @@ def run(tier, seed, build):
         prog = gen_case(rng)
         ex = explicit(prog)
         cases.append({"prog": prog, "text": pepper.comp_text(rng, prog), "ex": ex, "text_explicit": pepper.comp_text(rng, ex) if ex else None})
+    # once per run (appended, so the cases above stay as they were): a quoted region of a composite with two wildcards, the declared
+    # length leaving exactly the region's fixed parts, or more
+    helpers = gen_case(random.Random(0))["body"][:4]
+    for k, (kind, items, L) in enumerate([("strand", [["ref", "x", False], ["nuc", [["?", "N"], [2, "T"], ["?", "A"]]], ["ref", "w", False]], 13),
+                                          ("strand", [["ref", "x", False], ["nuc", [["?", "N"], [2, "T"], ["?", "A"]]], ["ref", "w", False]], 16),
+                                          ("sup", [["nuc", [["?", "N"], ["?", "N"]]], ["ref", "y", False]], 6),
+                                          ("sup", [["ref", "y", True], ["nuc", [[1, "S"], ["?", "N"], ["?", "W"]]]], 7)]):
+        st = ["seq", "q", items, ["Some", L]] if kind == "sup" else ["strand", False, "q", items, ["Some", L]]
+        prog = {"decl": ["prog", [], []], "body": copy.deepcopy(helpers) + [st]}
+        cases.append({"prog": prog, "text": pepper.comp_text(random.Random(seed * 17 + k), prog), "ex": None, "text_explicit": None})
     impl = fw.run_impl("props.c10", "impl_case", [{"text": c["text"], "text_explicit": c["text_explicit"]} for c in cases])
     reqs = [["comp", [r["text"].get("ctr0", 0) if isinstance(r, dict) and "text" in r else 0, "", c["prog"]["decl"], c["prog"]["body"]]] for c, r in zip(cases, impl)]
     model = fw.run_model(reqs)
